@@ -36,7 +36,10 @@ class QuadratureRule:
     def __hash__(self):
         """Hash."""
         if self._hash is None:
+            # Hash everything __eq__ compares: rules with equal points but
+            # different weights are different rules and need different ids
             self.hash_obj = hashlib.sha1(self.points)
+            self.hash_obj.update(np.ascontiguousarray(self.weights))
             self._hash = int(self.hash_obj.hexdigest(), 32)
         return self._hash
 
